@@ -76,6 +76,32 @@ CLAIMED["C13"] = dict(
     technique=E2 + "; ghost history variable per block, representation invariant over masks",
 )
 
+CLAIMED["C04"] = dict(
+    category="proof",
+    text=("Representation invariant RI (every masked list = compress(its local list, current selector), selectors consistent) is shown to be established by the "
+          "real constructor and re-established by the real merge_and_block_gradients + _mask_state_lists + compress_preconditioner_list from every previous "
+          "gradient-presence pattern to every new one (complete transition enumeration on a three-block instance, five configuration families; every `_masked_*` "
+          "attribute found by introspection) - an inductive argument over histories of any length; with RI the symbolic group step writes no heap object of an "
+          "unselected block (E2 frame obligation) and step() skips a group without gradients before incrementing its counter (E2, all integers)."),
+    design_ref="DESIGN.md §4/C04",
+    note=("block-count parametricity: transition relation enumerated on three equal-shaped blocks over two parameters (list code uses zip/compress/foreach only); "
+          "real code executed concretely for the RI transitions (exhaustive over patterns, not symbolic); bounded native presence histories with twin-parameter "
+          "cross-wiring oracle reported separately"),
+    technique="representation invariant checked inductively on the real code (complete enumeration of mask transitions) + " + E2 + " for frame and skip obligations",
+)
+CLAIMED["C05"] = dict(
+    category="proof",
+    text=("merge_small_dims is executed on symbolic extents/threshold for orders 0..4 (the property's domain): element count preserved, result = products of runs of "
+          "adjacent non-1 dims, fused runs within the limit, on every path for all integers. multi_dim_split is executed against the torch.split view contract with "
+          "symbolic extents and split size: pieces are exactly the chunk boxes in row-major order, views of the same storage, extents in 1..s; the 1-D chunking "
+          "partition lemma is discharged in LIA for all n, s. The real _merge_and_block_parameters/_gradients run on view proxies: view(merged) legal, blocks are "
+          "views of the parameter's own storage, gradient block k has parameter block k's box, selector repeats presence per block."),
+    design_ref="DESIGN.md §4/C05",
+    note=("torch.split / view / detach contracts assumed (validated natively, bounded); chunk counts per dimension enumerated in {1,2,3} for the fold structure; "
+          "product-of-partitions fact cited; independence of blocks is the non-interference obligation of C01/C04; exhaustive small-shape native tiling check reported as bounded"),
+    technique=E2 + "; LIA/NIA over symbolic extents, view/box theory with a torch.split contract stub",
+)
+
 NOT_YET = "no check committed yet for this property (work in progress; see DESIGN.md for the planned contract)"
 
 
